@@ -215,6 +215,7 @@ def run(chk):
                       % (sorted(cl), t['rule'], rl.l2s(t['path']), [''.join(map(chr, v[1])) for v in t['vals']],
                          repr(rl.l2s(t['url'])) if not t['exc'] else '', t['exc'], {k: (v if k != 'vals' else [''.join(map(chr, x[1])) for x in v]) for k, v in t['re'].items()}),
                       {'rule': t['rule'], 'path': t['path'], 'clauses': sorted(cl), 'exc': t['exc'], 'filters': t['filters']})
+    edge_values(chk)
     drift = sorted(set(missing) - set(fails))
     if drift:
         t = recs[drift[0]]
@@ -222,6 +223,42 @@ def run(chk):
     chk.extra['assumptions'] = ['parameter assignments are those the real router delivers for generated paths (converted ints/floats)',
                                 'rex selectors are out of scope']
     chk.extra['rule'] = 'fixed rules covering every filter family (path with following literal, adjacent wildcards, anonymous wildcards) and random rules x generated matching paths (ints with sign/leading zeros, floats incl. very small/large, multi-segment path values)'
+
+
+def edge_values(chk):
+    """Parameter assignments at the edges of a filter's language: an expression that also matches the empty text, numbers
+    beyond the range of a float.  Judged in the harness (same clauses: the URL is built, resolves to the same route with the
+    same values); the filters are outside the transcribed set."""
+    from ombott.router.radirouter import RadiRouter
+    cases = [('/a/{x:re([a-z]*)}/b', '/a//b'), ('/a/{x:re([a-z]*)}/b', '/a/q/b'), ('/e/<x:re(\\d*)>x', '/e/x'), ('/e/<x:re(\\d*)>x', '/e/12x'),
+             ('/o/<v:re((?:on)?)>/<w>', '/o//k'), ('/f/{x:float}', '/f/' + '9' * 400), ('/f/{x:float}', '/f/-' + '9' * 400 + '.5'),
+             ('/f/{x:float}/t', '/f/1' + '0' * 308 + '/t'), ('/f/{x:float}', '/f/' + '1' + '0' * 307)]
+    for rule, path in cases:
+        router = RadiRouter()
+        router.add(rule, 'GET', lambda **kw: None)
+        ep, _err = router.resolve(path, ['GET'])
+        chk.count(1, ('edge', rule, path[:40]))
+        if ep is None:
+            continue          # (whether the rule matches this path is C01's business)
+        meth, params, _hooks = ep
+        why, url = None, None
+        try:
+            url = meth.route.url(**params)
+        except Exception as e:   # noqa
+            why = 'UrlBuilt'
+            url = type(e).__name__
+        if why is None:
+            ep2, _e2 = router.resolve(url, ['GET'])
+            if ep2 is None or ep2[0].route is not meth.route:
+                why = 'Rematch'
+            elif ep2[1] != params:
+                why = 'SameValues'
+        if why:
+            vals = {k: (repr(v) if not isinstance(v, str) else v) for k, v in params.items()}
+            chk.violation('C19: [%r] fails: rule %r matched %r with values %s; url() -> %s'
+                          % (why, rule, path[:60] + ('...' if len(path) > 60 else ''), vals, url),
+                          {'rule': rule, 'path': path, 'clauses': [why], 'edge': True,
+                           'value_is_infinite_float': any(isinstance(v, float) and v in (float('inf'), float('-inf')) for v in params.values())})
 
 
 def replay(path):
